@@ -82,8 +82,8 @@ impl Check for C01 {
     const ID: &'static str = "C01";
     fn rule() -> String {
         "Writer programs (register extensions, blobs, images, 1..6 point clouds with rule-following prototypes built from attribute groups, \
-         record types with the bit width drawn first from 0..=64, point counts around the packet capacity, a leading padding blob sweeping the \
-         section position mod 1020) are executed against the real writer on an in-memory device and read back with the raw iterator. \
+         record types with the bit width drawn first from 0..=64, point counts around the packet capacity, 1 in 40 clouds with a compact all-integer prototype and more than two full packets, \
+         a leading padding blob sweeping the section position mod 1020) are executed against the real writer on an in-memory device and read back with the raw iterator. \
          Non-trivial: the file has a cloud with >= 3 data packets (the writer always emits a final packet for the carried partial bytes, so 2 is the norm), or a section/packet header straddling a page boundary, or a zero-width or \
          64-bit-wide record. Distinct = distinct case JSON."
             .into()
@@ -101,7 +101,7 @@ impl Check for C01 {
         ))
     }
     fn gen(s: &mut Src, _t: Tier) -> Case {
-        Case { program: prog::valid_program(s, &GenOpts::default()) }
+        Case { program: prog::valid_program(s, &GenOpts { compact_chance: (1, 40), ..GenOpts::default() }) }
     }
     fn run(case: &Case) -> Verdict {
         let mut v = Verdict::new();
